@@ -592,6 +592,57 @@ impl DecoderState {
     }
 }
 
+#[cfg(lzma_rs_verif)]
+impl DecoderState {
+    /// The complete decoder state as bytes in a fixed order (verification hook):
+    /// carry-over length, lc/lp/pb, expected size, every probability table, state, rep[0..4].
+    pub(crate) fn verif_state_bytes(&self) -> Vec<u8> {
+        let mut out: Vec<u8> = Vec::new();
+        out.push(self.partial_input_buf.position() as u8);
+        out.push(self.lzma_props.lc as u8);
+        out.push(self.lzma_props.lp as u8);
+        out.push(self.lzma_props.pb as u8);
+        match self.unpacked_size {
+            None => out.extend_from_slice(&[0u8; 9]),
+            Some(n) => {
+                out.push(1);
+                out.extend_from_slice(&n.to_le_bytes());
+            }
+        }
+        let mut probs: Vec<u16> = Vec::new();
+        probs.extend_from_slice(self.literal_probs.verif_data());
+        for t in self.pos_slot_decoder.iter() {
+            probs.extend_from_slice(t.verif_probs());
+        }
+        probs.extend_from_slice(self.align_decoder.verif_probs());
+        probs.extend_from_slice(&self.pos_decoders);
+        probs.extend_from_slice(&self.is_match);
+        probs.extend_from_slice(&self.is_rep);
+        probs.extend_from_slice(&self.is_rep_g0);
+        probs.extend_from_slice(&self.is_rep_g1);
+        probs.extend_from_slice(&self.is_rep_g2);
+        probs.extend_from_slice(&self.is_rep_0long);
+        self.len_decoder.verif_dump(&mut probs);
+        self.rep_len_decoder.verif_dump(&mut probs);
+        for p in probs {
+            out.extend_from_slice(&p.to_le_bytes());
+        }
+        out.push(self.state as u8);
+        for r in self.rep.iter() {
+            out.extend_from_slice(&(*r as u64).to_le_bytes());
+        }
+        out
+    }
+}
+
+#[cfg(lzma_rs_verif)]
+impl LzmaDecoder {
+    /// Decoder state as bytes (verification hook).
+    pub fn verif_state_bytes(&self) -> Vec<u8> {
+        self.state.verif_state_bytes()
+    }
+}
+
 #[derive(Debug)]
 /// Raw decoder for LZMA.
 pub struct LzmaDecoder {
